@@ -191,3 +191,17 @@ claim("C16",
       "types read back, NumPy structured-array conversions.",
       "AST attribute-chain collection + existence probe (linkage); decision atoms / event order / argument provenance "
       "on all abstract paths; resolved call graph who-may-create; stateless-handle classification", "DESIGN.md#c16")
+
+claim("C20",
+      "Static decision on every abstract path of the 8 copying API members: a wrong-kind source and an existing name at "
+      "the destination are refused before anything is written -- the existing-name test is a name-only membership test of "
+      "the effective new name on the very group the copy is created in; exactly one HDF5 object copy per call, to which "
+      "the supplied name, the source path and the id policy are passed unchanged; afterwards the copy is addressed by its "
+      "effective new name in the destination container (never by the source's name or an id the original may share); "
+      "the children flag decides whether the section copy is shallow; inside the hdf5 layer's copy: keep_id true writes "
+      "no id, keep_id false gives the root a fresh uuid4 and re-ids every nested object that carries an entity_id "
+      "(whatever its HDF5 kind), the name attribute is rewritten to the new name; every numpy/h5py attribute on the "
+      "copy path exists in the installed library. NOT decided: completeness and independence of the HDF5 object copy "
+      "itself, links among copied entities.",
+      "must-precede / argument and key provenance on all abstract paths (path-sensitive abstract interpretation); raw "
+      "h5py events under the keep_id decision; AST attribute-chain collection + existence probe", "DESIGN.md#c20")
